@@ -102,6 +102,8 @@ type TypeSpec struct {
 	LockGuar map[string][]Clause
 	OnEvent []onEventSpec
 	Block   *Block
+	CellTypes map[string]types.Type // closure environments: types of the captured cells
+	Env     string                  // closure environment: the top-level function whose cells are meant
 }
 
 func parseTypeSpec(b *Block) (*TypeSpec, error) {
@@ -185,6 +187,8 @@ func parseTypeSpec(b *Block) (*TypeSpec, error) {
 				}
 			}
 			ts.OnEvent = append(ts.OnEvent, oe)
+		case "env":
+			ts.Env = strings.TrimSpace(c.Text)
 		case "props", "note", "recv":
 		default:
 			return nil, fmt.Errorf("%s:%d: unknown type clause %q", c.File, c.Line, c.Kind)
@@ -268,6 +272,12 @@ func (kc *kernelCtx) runFunc(b *Block) *Unit {
 	}
 	if c := b.first("type"); c != nil {
 		ts = kc.types[strings.TrimSpace(c.Text)]
+		if ts != nil && ts.Env != "" {
+			recvName = ""
+			if top := fns[ts.Env]; top != nil && ts.CellTypes == nil {
+				ts.CellTypes = cellTypes(top)
+			}
+		}
 	}
 	if c := b.first("recv"); c != nil {
 		recvName = strings.TrimSpace(c.Text)
@@ -329,7 +339,7 @@ func (kc *kernelCtx) runFunc(b *Block) *Unit {
 			if ts == nil {
 				return nil
 			}
-			return kc.fieldType(ts.Name, f)
+			return kc.cellOrFieldType(ts, f)
 		}, Events: st.Events, Track: trackFn, Alias: alias, Exit: ex, UserFn: map[string]bool{}}
 		if len(st.Frames) > 0 {
 			fr := st.Frames[0]
@@ -338,6 +348,9 @@ func (kc *kernelCtx) runFunc(b *Block) *Unit {
 					env.Vars[p.Name()] = v
 				}
 			}
+		}
+		if ts != nil && ts.CellTypes != nil {
+			env.CellType = func(n string) types.Type { return ts.CellTypes[n] }
 		}
 		return env
 	}
@@ -380,6 +393,13 @@ func (kc *kernelCtx) runFunc(b *Block) *Unit {
 	if ts != nil && fn.Signature.Recv() != nil {
 		if pt, ok := fn.Params[0].Type().Underlying().(interface{ Elem() interface{} }); ok {
 			_ = pt
+		}
+	}
+	initiallyHeld := map[string]bool{}
+	for _, c := range b.all("holding") {
+		for _, l := range strings.Fields(c.Text) {
+			st.Held[l] = true
+			initiallyHeld[l] = true
 		}
 	}
 	fr0 := &Frame{Fn: fn, Vals: map[ssa.Value]SVal{}, LoopMark: map[int]int{}}
@@ -446,7 +466,13 @@ func (kc *kernelCtx) runFunc(b *Block) *Unit {
 			add("nopanic", boolLit(e.ex.Kind != ExitPanic), "the function does not panic", nil, nil)
 		}
 		if ts != nil && len(ts.LockInv) > 0 || b.first("nolockleak") != nil {
-			add("nolockleak", boolLit(len(e.st.Held) == 0), "no lock is held on exit (including panic exits)", nil, nil)
+			same := len(e.st.Held) == len(initiallyHeld)
+			for l := range initiallyHeld {
+				if !e.st.Held[l] {
+					same = false
+				}
+			}
+			add("nolockleak", boolLit(same), "the locks held on exit (including panic exits) are exactly those held on entry", nil, nil)
 		}
 		for i, c := range b.all("ensures") {
 			label, props := clauseLabel(c, i)
@@ -520,7 +546,23 @@ func dedup(xs []string) []string {
 // hooks builds the executor hooks implementing the type contract of the receiver.
 func (kc *kernelCtx) hooks(b *Block, ts *TypeSpec, recv string, inline map[string]bool, mkEnv func(*State, *Exit) *Env) Hooks {
 	fieldOf := func(key string) (string, bool) {
-		if recv == "" || !strings.HasPrefix(key, recv+".") {
+		if recv == "" {
+			// a closure environment: the "fields" are the captured cells declared by the type contract
+			f := key
+			if i := strings.IndexAny(f, ".["); i >= 0 {
+				f = f[:i]
+			}
+			if ts == nil {
+				return "", false
+			}
+			_, a := ts.Atomic[f]
+			_, p := ts.Prot[f]
+			if a || p || ts.Const[f] || ts.Free[f] || ts.Sync[f] {
+				return f, true
+			}
+			return "", false
+		}
+		if !strings.HasPrefix(key, recv+".") {
 			return "", false
 		}
 		f := key[len(recv)+1:]
@@ -528,6 +570,12 @@ func (kc *kernelCtx) hooks(b *Block, ts *TypeSpec, recv string, inline map[strin
 			f = f[:i]
 		}
 		return f, true
+	}
+	cellKey := func(f string) string {
+		if recv == "" {
+			return f
+		}
+		return recv + "." + f
 	}
 	h := Hooks{}
 	h.EvalExpr = func(x *Exec, st *State, expr string) (string, error) {
@@ -721,7 +769,7 @@ func (kc *kernelCtx) hooks(b *Block, ts *TypeSpec, recv string, inline map[strin
 				st.Named["sort:atlock("+f+")"] = sort
 				continue
 			}
-			prefix := recv + "." + f
+			prefix := cellKey(f)
 			for key, old := range st.Heap {
 				if key == prefix || strings.HasPrefix(key, prefix+".") {
 					st.Heap[key] = x.freshLike(st, key+"@cs", old, old.GoT)
@@ -730,7 +778,7 @@ func (kc *kernelCtx) hooks(b *Block, ts *TypeSpec, recv string, inline map[strin
 		}
 		// yield atomics mentioned by the invariant, then assume it
 		for f := range ts.Atomic {
-			key := recv + "." + f
+			key := cellKey(f)
 			if cur, ok := st.Heap[key]; ok {
 				x.yield(st, key, cur.GoT)
 			}
@@ -753,8 +801,8 @@ func (kc *kernelCtx) hooks(b *Block, ts *TypeSpec, recv string, inline map[strin
 			if _, isGhost := ts.Ghost[f]; isGhost {
 				continue
 			}
-			if t := kc.fieldType(ts.Name, f); t != nil {
-				v := x.load(st, recv+"."+f, t, token.NoPos)
+			if t := kc.cellOrFieldType(ts, f); t != nil {
+				v := x.load(st, cellKey(f), t, token.NoPos)
 				if v.K == KSlice {
 					v.Snap = x.arrTerm(st, v)
 				}
@@ -767,7 +815,7 @@ func (kc *kernelCtx) hooks(b *Block, ts *TypeSpec, recv string, inline map[strin
 			return
 		}
 		for f := range ts.Atomic {
-			key := recv + "." + f
+			key := cellKey(f)
 			if cur, ok := st.Heap[key]; ok {
 				x.yield(st, key, cur.GoT)
 			}
@@ -789,8 +837,8 @@ func (kc *kernelCtx) hooks(b *Block, ts *TypeSpec, recv string, inline map[strin
 			if _, isGhost := ts.Ghost[f]; isGhost {
 				continue
 			}
-			if t := kc.fieldType(ts.Name, f); t != nil {
-				v := x.load(st, recv+"."+f, t, token.NoPos)
+			if t := kc.cellOrFieldType(ts, f); t != nil {
+				v := x.load(st, cellKey(f), t, token.NoPos)
 				if v.K == KSlice {
 					v.Snap = x.arrTerm(st, v)
 				}
@@ -836,6 +884,17 @@ func (kc *kernelCtx) hooks(b *Block, ts *TypeSpec, recv string, inline map[strin
 	return h
 }
 
+// cellOrFieldType: the Go type of a declared field (struct types) or captured cell (closure environments).
+func (kc *kernelCtx) cellOrFieldType(ts *TypeSpec, f string) types.Type {
+	if t := kc.fieldType(ts.Name, f); t != nil {
+		return t
+	}
+	if ts.CellTypes != nil {
+		return ts.CellTypes[f]
+	}
+	return nil
+}
+
 // touchFields makes sure the receiver fields named by an invariant have heap entries.
 func (kc *kernelCtx) touchFields(x *Exec, st *State, ts *TypeSpec, recv, expr string) {
 	for _, id := range regexp.MustCompile(`[A-Za-z_][A-Za-z0-9_]*`).FindAllString(expr, -1) {
@@ -844,8 +903,11 @@ func (kc *kernelCtx) touchFields(x *Exec, st *State, ts *TypeSpec, recv, expr st
 		_, isGhost := ts.Ghost[id]
 		if (isAtomic || isProt || ts.Const[id]) && !isGhost {
 			key := recv + "." + id
+			if recv == "" {
+				key = id
+			}
 			if _, ok := st.Heap[key]; !ok {
-				if t := kc.fieldType(ts.Name, id); t != nil {
+				if t := kc.cellOrFieldType(ts, id); t != nil {
 					x.load(st, key, t, token.NoPos)
 				}
 			}
@@ -877,7 +939,10 @@ func (kc *kernelCtx) lockInvAt(x *Exec, st *State, ts *TypeSpec, recv, inv, key,
 			continue
 		}
 		k := recv + "." + f
-		if t := kc.fieldType(ts.Name, f); t != nil {
+		if recv == "" {
+			k = f
+		}
+		if t := kc.cellOrFieldType(ts, f); t != nil {
 			s2.Heap[k] = x.symbolic(s2, x.D.fresh(k+"@any", "U"), t)
 		}
 	}
